@@ -46,6 +46,13 @@ def main():
         subprocess.check_call(["git", "-C", "/repo", "checkout", "--", "."])
         subprocess.run(["rm", "-rf", scratch])
     ok = any(rc == 1 for rc, _ in caught.values())
+    if "--record" in sys.argv:
+        import re
+        meta["detected_by"] = [{"check": "./check %s %s" % (p, tier), "exit": rc,
+                                "violation_keys": sorted(set(re.search(r"key=(\S+)", k).group(1) for k in keys if "key=" in k))}
+                               for p, (rc, keys) in caught.items()]
+        meta["ran"] = "git -C /repo apply patch.diff; " + "; ".join("./check %s %s" % (p, tier) for p in caught) + "; git -C /repo checkout -- ."
+        json.dump(meta, open(os.path.join(d, "meta.json"), "w"), indent=1)
     print("SEEDED %s: %s" % (os.path.basename(d), "caught" if ok else "MISSED"))
     return 0 if ok else 1
 
